@@ -43,6 +43,8 @@ type stanzaSpec struct {
 	MinWrap   int              `json:"min_wrap_s,omitempty"`
 	MaxWrap   int              `json:"max_wrap_s,omitempty"`
 	PageLimit int              `json:"pagination_limit,omitempty"`
+	// list_scan_response_keys_filter_path; only written on stanzas that grant list
+	FilterPath string `json:"filter_path,omitempty"`
 }
 
 type policySpec struct {
@@ -74,6 +76,7 @@ type refRule struct {
 	minWrap   int
 	maxWrap   int
 	pageLimit int
+	filters   map[string]bool // distinct list_scan_response_keys_filter_path values of the contributing stanzas
 	prio      refPrio
 	exact     bool
 	re        *regexp.Regexp
@@ -160,6 +163,12 @@ func refBuild(policies []policySpec, aclNS string) *refACL {
 			}
 			if st.PageLimit > 0 && (r.pageLimit == 0 || st.PageLimit < r.pageLimit) {
 				r.pageLimit = st.PageLimit
+			}
+			if st.FilterPath != "" {
+				if r.filters == nil {
+					r.filters = map[string]bool{}
+				}
+				r.filters[st.FilterPath] = true
 			}
 		}
 	}
